@@ -32,6 +32,7 @@ DEFAULT = {
     "p_go_early": 0.0,       # probability that a frame's first transition is declared before its auxiliary clauses (it then still
                              # fires while a conditional auxiliary of that frame suspends the frames below)
     "p_go_me_parent": 0.0,   # probability that a frame with children gets a periodic forced re-entry ('go me if recurred >= k')
+    "p_auxdone_named": 0.0,  # probability of a watcher transition on 'aux A in frame X is done' placed in a frame other than X
     "p_slave_order": 0.0,  # probability that a slave framer is declared with an explicit 'in front' / 'in back'
     "p_env_field": 0.0,  # probability that an environment write goes to a field other than 'value' (a field added since a snapshot)
     "p_abort_end": 0.0,  # probability that the clock framer ends the run with 'bid abort all' instead of stopping the framers first
@@ -211,6 +212,22 @@ def _frames(g, cfg, prefix, framer_names, P, aux_names, slave_names, is_aux=Fals
             acts.append({"k": "timeout", "v": dec(k * Fraction(P))})
         if has_next and g.random() < cfg["p_repeat"]:
             acts.append({"k": "repeat", "n": g.randint(0, 5)})
+    if not is_aux and cfg.get("p_auxdone_named", 0.0):
+        import hashlib
+        import random as _random
+        side = _random.Random(int(hashlib.sha256((repr(g.getstate()) + "adn").encode()).hexdigest()[:16], 16))
+        holders = [(f["name"], a["name"]) for f in frames for a in f["acts"] if a["k"] == "aux" and not a.get("needs")]
+        if holders and side.random() < cfg["p_auxdone_named"]:
+            # a watcher transition on 'aux A in frame X is done', written in a frame other than X: evaluated also while X does not
+            # hold A (before X was entered, after it was left, while the same original runs under another frame)
+            xname, aname = side.choice(holders)
+            others_ = [f for f in frames if f["name"] != xname]
+            if others_:
+                w = side.choice(others_)
+                tgt = side.choice([f["name"] for f in frames])
+                go = {"k": "go", "far": tgt, "needs": [{"t": "auxdone", "sel": aname, "frame": xname, "neg": side.random() < 0.3}]}
+                idx = next((j for j, a in enumerate(w["acts"]) if a["k"] in ("timeout", "repeat")), len(w["acts"]))
+                w["acts"].insert(idx, go)
     if not is_aux and aux_names and g.random() < cfg.get("p_susp_sibling", 0.0):
         pm, ps, pa, pb = [prefix + x for x in ("sm", "ss", "sa", "sb")]
         host = g.choice([None] + [f["name"] for f in frames if depth[f["name"]] == 0])
